@@ -50,6 +50,12 @@ def expressions(tier, seed):
             "'a b'.split(maxsplit=0) == ['a b']", "'aXbXc'.replace('X', '-', 1)", "'x'.center(3, '*')", "'%(a)s' % dict(a=1)", "'ab'.startswith('b', 1)",
             "'v%s' % 2", "'v%s' % 2.0", "'%s' % True", "'%s' % 1", "'ab' * 2", "'ab' * 2.0", "'ab' * True", "1 << 4", "1 << 4.0", "6 & 3", "6 & 3.0", "2 ** 10", "2.0 ** 10", "True + True", "1 + 1", "1.0 + 1.0",
             "[0] * 2", "[0] * 2.0", "7 // 2", "7.0 // 2", "7 % 3", "7.0 % 3", "-7 // 2", "divmod(7, 2)", "divmod(7.0, 2)", "1 == 1.0", "1 is 1.0", "hash(1) == hash(1.0)", "str(1)", "str(1.0)", "str(True)",
+            # sets: the order of iteration depends on the hash seed (texts) and on HOW the set was built (a display compiled by CPython is not the
+            # set the evaluator builds element by element): nothing that exposes the order may get a value
+            "list({4096, 15, 23})", "list({4096, 15, 23}) == [4096, 15, 23]", "tuple({40, -1, 16, 32, 4096})", "str({4096, 15, 23})", "repr({8, 16, 24, 32, 40})", "'{}'.format({4096, 15, 23})",
+            "'%s' % {4096, 15, 23}", "'%s' % ({4096, 15, 23},)", "list(enumerate({4096, 15, 23}))", "sorted({4096, 15, 23})", "sum({4096, 15, 23})", "max({4096, 15, 23})", "len({4096, 15, 23})",
+            "sum({0.1, 0.2, 0.3})", "sum({1e100, 1.0, -1e100})", "str([{4096, 15, 23}])", "list({'a', 'b'})", "''.join({'a', 'b'})", "str([{'a', 'b'}])", "'%s' % {'a', 'b'}", "len([{1, 2}])", "list({1: {4096, 15, 23}}.values())",
+            "hash('abc')", "'abc'.__hash__()", "hash(('a', 1))", "hash(1)", "{'a', 'b'} == {'b', 'a'}", "'a' in {'a', 'b'}", "sorted({'b', 'a'})", "len({'a', 'b'})", "frozenset({'a'}) | {'b'}",
             "repr(2)", "repr(2.0)", "bool(0.0)", "bool(0)", "int(True)", "int(2.9)", "float(2)", "complex(1)", "abs(-2)", "abs(-2.0)", "round(2.5)", "round(3.5)", "round(2)", "type(1) == type(1.0)"]
     n = 4000 if tier == "quick" else 80000
     for _ in range(n):
@@ -205,6 +211,45 @@ def _w2(e):
         return [{"harness_error": repr(ex)}]
 
 
+SEED_EXPRS = ["list({'a', 'b'})", "list({'a', 'b'}) == ['a', 'b']", "''.join({'ab', 'cd'})", "tuple({'p', 'q'})[0]", "str({'east', 'west'})", "repr(frozenset({'x', 'y'}))", "'%s' % {'a', 'b'}", "'{}'.format({'a', 'b'})",
+              "str([{'a', 'b'}])", "list({1: {'a', 'b'}}.values())", "hash('abc')", "'abc'.__hash__()", "hash(('a', 1)) % 7", "sorted({'b', 'a'})", "len({'a', 'b'})", "'a' in {'a', 'b'}", "{'a', 'b'} == {'b', 'a'}",
+              "min({'b', 'a'})", "list(enumerate({'a', 'b'}))", "dict.fromkeys({'a', 'b'})", "next(iter({'a', 'b'}))", "list(map(str, {'a', 'b'}))", "list(zip({'a', 'b'}, 'xy'))", "[*{'a', 'b'}]", "list(reversed(list({'a', 'b'})))",
+              "sum({0.1, 0.2, 0.3})", "max({'a', 'b'}, key=len)", "sorted({'b', 'a'}, key=len)"]
+SEED_SNIPPET = r"""
+import sys, json
+sys.path.insert(0, %r)
+from pyrefact import core, logs
+logs.set_level(100)
+out = []
+for e in json.load(sys.stdin):
+    try:
+        out.append(repr(core.literal_value(core.parse(e).body[0].value)))
+    except ValueError:
+        out.append("<unknown>")
+    except BaseException as ex:
+        out.append("RAISES " + type(ex).__name__)
+print(json.dumps(out))
+"""
+
+
+def run_hash_seeds():
+    import json, os, subprocess, sys
+    res = {}
+    for hs in ("1", "2", "3", "4", "5", "6"):
+        p = subprocess.run([sys.executable, "-c", SEED_SNIPPET % os.environ.get("PYREFACT_REPO", "/repo")], input=json.dumps(SEED_EXPRS), capture_output=True, text=True, timeout=300,
+                           env=dict(os.environ, PYTHONHASHSEED=hs))
+        res[hs] = json.loads(p.stdout.strip().splitlines()[-1])
+    fl = []
+    for k, e in enumerate(SEED_EXPRS):
+        vals = {hs: r[k] for hs, r in res.items()}
+        if len(set(vals.values())) > 1:
+            fl.append({"id": f"value-depends-on-the-hash-seed::{e}", "cls": "value-depends-on-the-hash-seed", "input": e, "observed": f"literal_value({e!r}) under PYTHONHASHSEED 1..6: {vals}",
+                       "required": "one value in every process, or unknown"})
+    return {"name": "c15-value-independent-of-the-process", "function": "core.literal_value", "contract": "the value found for an expression is the same under every string-hash seed (or the expression is unknown)",
+            "space": f"{len(SEED_EXPRS)} expressions that expose the iteration order of a set of texts or the hash of a text x PYTHONHASHSEED 1..6 in fresh processes", "bound": "enumerated expressions, six seeds",
+            "evaluations": len(SEED_EXPRS) * 6, "distinct_nontrivial": len(SEED_EXPRS), "exhaustive": False, "failures": fl, "samples": SEED_EXPRS[:2]}
+
+
 def run(tier, seed):
     exprs, n_exh = expressions(tier, seed)
     rnd = random.Random(seed + 7)
@@ -245,6 +290,7 @@ def run(tier, seed):
     if errs:
         res["error"] = f"{len(errs)} harness errors, first: {errs[0]}"
     out.append(res)
+    out.append(run_hash_seeds())
     return out
 
 
